@@ -80,7 +80,7 @@ package vm
 //@   modifies nothing
 
 //@ func (*EVM).Call
-//@   props C16
+//@   props C16 C07
 //@   requires evm != nil && caller != nil && value != nil
 //@   ensures result1 <= gas
 //@   ensures old(evm.depth) > int(params.CallCreateDepth) && !(old(evm.vmConfig.NoRecursion) && old(evm.depth) > 0) ==> result2 == ErrDepth && result1 == gas
@@ -91,7 +91,7 @@ package vm
 //@   ensures evm.interpreter == old(evm.interpreter) && evm.interpreter.readOnly == old(evm.interpreter.readOnly)
 
 //@ func (*EVM).StaticCall
-//@   props C16
+//@   props C16 C07
 //@   requires evm != nil && evm.interpreter != nil && caller != nil
 //@   ensures result1 <= gas
 //@   ensures old(evm.depth) > int(params.CallCreateDepth) && !(old(evm.vmConfig.NoRecursion) && old(evm.depth) > 0) ==> result2 == ErrDepth && result1 == gas
@@ -100,7 +100,7 @@ package vm
 //@   ensures evm.interpreter == old(evm.interpreter) && evm.interpreter.readOnly == old(evm.interpreter.readOnly)
 
 //@ func (*EVM).CallCode
-//@   props C16
+//@   props C16 C07
 //@   requires evm != nil && caller != nil && value != nil
 //@   ensures result1 <= gas
 //@   ensures old(evm.depth) > int(params.CallCreateDepth) && !(old(evm.vmConfig.NoRecursion) && old(evm.depth) > 0) ==> result2 == ErrDepth && result1 == gas
@@ -109,7 +109,7 @@ package vm
 //@   ensures evm.interpreter == old(evm.interpreter) && evm.interpreter.readOnly == old(evm.interpreter.readOnly)
 
 //@ func (*EVM).DelegateCall
-//@   props C16
+//@   props C16 C07
 //@   requires evm != nil && caller != nil
 //@   ensures result1 <= gas
 //@   ensures old(evm.depth) > int(params.CallCreateDepth) && !(old(evm.vmConfig.NoRecursion) && old(evm.depth) > 0) ==> result2 == ErrDepth && result1 == gas
@@ -149,7 +149,7 @@ package vm
 // Create, up to the point where the init code starts to run: depth bound, and the endowment is transferred inside the snapshot
 // that a failed creation reverts to (what happens after the run is not explored: opt stop-at)
 //@ func (*EVM).Create
-//@   props C16
+//@   props C16 C07
 //@   requires evm != nil && caller != nil && value != nil
 //@   opt stop-at=run#0
 //@   ensures old(evm.depth) > int(params.CallCreateDepth) ==> result3 == ErrDepth && result2 == gas
